@@ -581,6 +581,21 @@ class CompositeProperty(
                 cprop.strategy_key = (("deferred", True), ("instrument", True))
             cprop.group = self.group
 
+    def merge(
+        self,
+        session,
+        source_state,
+        source_dict,
+        dest_state,
+        dest_dict,
+        load,
+        _recursive,
+        _resolve_conflict_map,
+    ) -> None:
+        # the column attributes are merged individually; drop the cached
+        # composite so that it is rebuilt from them on next access
+        dest_dict.pop(self.key, None)
+
     def _setup_event_handlers(self) -> None:
         """Establish events that populate/expire the composite attribute."""
 
